@@ -161,6 +161,103 @@ struct Eval {
     run: Option<RunRes>,
 }
 
+/// safe backend that serves exactly one file: the source under test, as "c10mod.ua"
+struct ModSys {
+    inner: SafeSys,
+    src: String,
+}
+
+impl uiua::SysBackend for ModSys {
+    fn any(&self) -> &dyn std::any::Any {
+        self
+    }
+    fn any_mut(&mut self) -> &mut dyn std::any::Any {
+        self
+    }
+    fn print_str_stdout(&self, s: &str) -> Result<(), String> {
+        self.inner.print_str_stdout(s)
+    }
+    fn print_str_stderr(&self, s: &str) -> Result<(), String> {
+        self.inner.print_str_stderr(s)
+    }
+    fn file_exists(&self, path: &str) -> bool {
+        path.ends_with("c10mod.ua")
+    }
+    fn is_file(&self, path: &str) -> Result<bool, String> {
+        Ok(path.ends_with("c10mod.ua"))
+    }
+    fn file_read_all(&self, path: &std::path::Path) -> Result<Vec<u8>, String> {
+        if path.ends_with("c10mod.ua") { Ok(self.src.as_bytes().to_vec()) } else { Err("no such file".into()) }
+    }
+}
+
+/// names (with public/private flags) that a file exports to `M ~ "file"`: Debug of the importer's module binding
+fn interface_of(src: &str) -> String {
+    let r = quiet(|| {
+        let mut c = Compiler::with_backend(ModSys { inner: SafeSys::new(), src: src.to_string() });
+        c.pre_eval_mode(PreEvalMode::Lazy);
+        c.print_diagnostics(false);
+        c.load_str("Cm ~ \"c10mod.ua\"\n").map(|c| c.finish()).map_err(|e| e.to_string())
+    });
+    match r {
+        Ok(Ok(asm)) => {
+            let mut out = String::new();
+            for b in asm.bindings.iter() {
+                if let uiua::BindingKind::Module(m) = &b.kind {
+                    if m.path.is_some() {
+                        let mut names: Vec<String> = m.names.all_iter().map(|(n, l)| format!("{n}:{}:{}", l.index, if l.public { "pub" } else { "priv" })).collect();
+                        names.sort();
+                        write!(out, "[{}]", names.join(" ")).unwrap();
+                    }
+                }
+            }
+            out
+        }
+        Ok(Err(e)) => format!("import fails: {}", strip_loc(&e)),
+        Err(p) => format!("PANIC: {p}"),
+    }
+}
+
+/// the same text as the body of a module: the names of its scope with their visibility, as code
+/// outside the module sees them (Wrap~Name)
+fn wrapped_interface_of(src: &str) -> String {
+    let exp = if src.contains("# Experimental!") || src.contains("#exp") { "# Experimental!\n" } else { "" };
+    let text = format!("{exp}┌─╴Wrap\n{}\n└─╴\n", src.trim_end_matches('\n'));
+    let r = quiet(|| {
+        let mut c = Compiler::with_backend(SafeSys::new());
+        c.pre_eval_mode(PreEvalMode::Lazy);
+        c.print_diagnostics(false);
+        c.load_str(&text).map(|c| c.finish()).map_err(|e| e.to_string())
+    });
+    match r {
+        Ok(Ok(asm)) => {
+            let mut out = String::new();
+            fn dump(asm: &uiua::Assembly, m: &uiua::Module, depth: usize, out: &mut String) {
+                let mut names: Vec<String> = Vec::new();
+                for (n, l) in m.names.all_iter() {
+                    let mut s = format!("{n}:{}:{}", l.index, if l.public { "pub" } else { "priv" });
+                    if depth < 4 {
+                        if let Some(uiua::BindingKind::Module(inner)) = asm.bindings.get(l.index).map(|b| &b.kind) {
+                            let mut sub = String::new();
+                            dump(asm, inner, depth + 1, &mut sub);
+                            s.push_str(&sub);
+                        }
+                    }
+                    names.push(s);
+                }
+                names.sort();
+                out.push_str(&format!("[{}]", names.join(" ")));
+            }
+            if let Some(uiua::BindingKind::Module(m)) = asm.bindings.first().map(|b| &b.kind) {
+                dump(&asm, m, 0, &mut out);
+            }
+            out
+        }
+        Ok(Err(_)) => "does not compile as a module body".into(),
+        Err(p) => format!("PANIC: {p}"),
+    }
+}
+
 fn compile_src(src: &str) -> Result<Compiled, String> {
     let r = quiet(|| {
         let mut c = Compiler::with_backend(SafeSys::new());
@@ -178,8 +275,11 @@ fn compile_src(src: &str) -> Result<Compiled, String> {
                 write!(debug, "\n{f:?}").unwrap();
             }
             for b in asm.bindings.iter() {
-                write!(debug, "\n{:?}", b.kind).unwrap();
+                write!(debug, "\n{} {:?}", if b.public { "public" } else { "private" }, b.kind).unwrap();
             }
+            // the file as seen by an importer: its scope's names with their visibility
+            debug.push_str("\nas module body: ");
+            debug.push_str(&wrapped_interface_of(src));
             Ok(Compiled { root, funs, debug: strip_at(&debug) })
         }
         Ok(Err(e)) => Err(e),
@@ -522,6 +622,21 @@ fn construct(src: &str) -> &'static str {
     if after_hash.iter().any(|r| r.starts_with("  ") || *r == " ") {
         return "comment-leading-space";
     }
+    if lines.iter().any(|l| l.contains("$ ") && l.ends_with(' ')) && has("#") {
+        return "raw-string-trailing-space";
+    }
+    if ["\\\\R", "\\\\Z", "\\\\N", "\\\\B"].iter().any(|e| has(e)) {
+        return "escaped-backslash-set-letter";
+    }
+    if lines.iter().any(|l| {
+        let w: Vec<&str> = l.split_whitespace().collect();
+        w.windows(2).any(|p| p[0].chars().all(|c| c.is_alphabetic()) && !p[0].is_empty() && (p[1] == "eq" || p[1] == "equals" || p[1] == "equ" || p[1] == "equa" || p[1] == "equal"))
+    }) {
+        return "name-equals";
+    }
+    if lines.iter().any(|l| l.contains(", ") || l.ends_with(',')) && !has("\"") {
+        return "empty-ascii-subscript";
+    }
     if has("$$") {
         return "multiline-format-string";
     }
@@ -845,7 +960,7 @@ impl<'a> PG<'a> {
             2 => "\"# not a comment\"".into(),
             3 => "\"\"".into(),
             4 => "\"x_y  z\"".into(),
-            5 => "\"\\\\\"".into(),
+            5 => (*r.pick(&["\"\\\\\"", "\"a\\\\Rb\"", "\"\\\\Z\\\\N\""])).into(),
             _ => "\"abc\"".into(),
         }
     }
@@ -1078,8 +1193,19 @@ impl<'a> PG<'a> {
         self.join(&a)
     }
     fn expr(&mut self) -> String {
-        let k = self.r.below(12);
+        let k = self.r.below(13);
         let atoms: Vec<String> = match k {
+            12 => {
+                // a name followed by the primitive = written by name ("Abc equals 3")
+                let cands: Vec<String> = self.names.iter().filter(|(n, a)| *a == 0 && !n.contains('~')).map(|(n, _)| n.clone()).collect();
+                if cands.is_empty() {
+                    vec![self.prim("≠"), self.num(), self.num()]
+                } else {
+                    self.feat("name-equals");
+                    let eq = (*self.r.pick(&["equals", "eq", "equals"])).to_string();
+                    vec![self.r.pick(&cands).clone(), eq, self.num()]
+                }
+            }
             0 => vec![self.num()],
             1 => vec![self.list()],
             2 => {
@@ -1237,7 +1363,7 @@ impl<'a> PG<'a> {
                         s.push('\n');
                         s.push_str(&ind);
                     }
-                    s.push_str(*self.r.pick(&["$ raw \"text\" # here", "$ ", "$  two", "$ a\\nb", "$ x_y"]));
+                    s.push_str(*self.r.pick(&["$ raw \"text\" # here", "$ ", "$  two", "$ a\\nb", "$ x_y", "$ trailing  ", "$ hi "]));
                 }
                 if self.r.chance(1, 2) {
                     let name = format!("S{}", (b'a' + self.names.len() as u8 % 26) as char);
@@ -1329,6 +1455,21 @@ fn gen_program(r: &mut Rng) -> (String, Vec<&'static str>) {
 
 /// hand-written seeds: earlier counterexamples and the constructs of the property's quantifier
 const SEEDS: &[&str] = &[
+    "Abc ← 5\nAbc equals 3\n",
+    "Abc ← 5\nAbc eq 3\n",
+    "x ← 5\nx equals 3\n",
+    "X ← $ hi  \n1 # c\n",
+    "X ← $ hi \nY ← 2 # c\n",
+    "$ hi  \n1 # c\n",
+    "\"a\\\\Rb\"\n",
+    "@\\\\ \"\\\\Z\"\n",
+    "$\"a\\\\N_\" 1\n",
+    "/, 5\n",
+    "/+, 5\n",
+    "≡, 1\n",
+    "┌─╴Outer\n  ┌╶╶M ~ A B\n    A ← 5\n    B ← 7\n  └╶╶\n  C ← +A B\n└─╴\n&p Outer.A\n&p Outer.C\n",
+    "┌╶╶M ~ A\n  A ← 5\n└╶╶\nA\n",
+    "┌─╴M ≁ A\n  A ← 5\n└─╴\nA\n",
     "# # text\n",
     "1 # # text\n",
     "# ? G VelPos\n",
@@ -1470,6 +1611,8 @@ fn main() {
                 }
                 o => println!("format fails: {o:?}"),
             }
+            println!("interface(s)      = {}", interface_of(&src));
+            println!("as module body    = {}", wrapped_interface_of(&src));
             let mut ctx = Ctx::new(true);
             for v in check(&mut ctx, &src, &cfg, None, None) {
                 println!("VIOLATION {}: {}", v.kind, v.detail);
@@ -1494,6 +1637,48 @@ struct Source {
     features: Vec<&'static str>,
 }
 
+/// scoped modules with header import lines in all four visibility combinations (┌─╴/┌╶╶ x ~/≁), at file
+/// level and nested, with uses of imported / non-imported / private names from outside (compiling and
+/// non-compiling variants: "compiles iff" must hold both ways), private bindings, private imports
+fn module_family() -> Vec<String> {
+    let mut out = Vec::new();
+    for (open, close) in [("┌─╴", "└─╴"), ("┌╶╶", "└╶╶")] {
+        for tilde in ["~", "≁"] {
+            for arrow in ["←", "↚"] {
+                let inner = format!("{open}M {tilde} A B\n  A {arrow} 5\n  B ← 7\n  D ← 1\n{close}\n");
+                // file level: uses after the module
+                for use_ in ["", "A\n", "+A B\n", "M.A\n", "M~D\n", "D\n", "C ← +A B\nC\n", "~ \"example\" ~ Foo\n+Foo A\n"] {
+                    out.push(format!("{inner}{use_}"));
+                }
+                // nested in a public / private outer module, used from outside
+                for (oo, oc) in [("┌─╴", "└─╴"), ("┌╶╶", "└╶╶")] {
+                    let nested: String = inner.lines().map(|l| format!("  {l}\n")).collect();
+                    for use_ in ["Outer.A\n", "Outer.C\n", "Outer.M.D\n", "Outer.D\n", "Outer~B\n", "&p Outer.A\n&p Outer.C\n", ""] {
+                        out.push(format!("{oo}Outer\n{nested}  C ← +A B\n{oc}\n{use_}"));
+                    }
+                    // the outer module re-exports through its own header line
+                    out.push(format!("{oo}Outer {tilde} C\n{nested}  C ← +A B\n{oc}\nC\n"));
+                }
+            }
+        }
+    }
+    // odd spellings of the same header lines
+    out.push("┌─╴M  ≁  B   A\n  A ← 5\n  B ← 7\n└─╴\n+A B\n".into());
+    out.push("┌╶╶M~A\n  A ← 5\n└╶╶\nA\n".into());
+    out.push("┌─╴M ~ A\nA ← 5\n└─╴\nA\n".into());
+    out.push("---M ~ A\n  A ← 5\n---\nA\n".into());
+    // private bindings and private imports seen from outside
+    for use_ in ["M.A\n", "M.B\n", "M.Ex.Foo\n", "M.Foo\n", "M.Bar\n", ""] {
+        out.push(format!("┌─╴M\n  A ↚ 5\n  B ← A\n  Ex ≁ \"example\"\n  ~ \"example\" ≁ Foo\n  ~ \"example\" ~ Bar\n└─╴\n{use_}"));
+        out.push(format!("┌─╴M\n  A =~ 5\n  B = A\n  Ex ~ \"example\"\n  ≁ \"example\" ~ Foo\n└─╴\n{use_}"));
+    }
+    out.push("Ex ≁ \"example\"\nEx.Foo\n".into());
+    out.push("≁ \"example\" ~ Foo\nFoo\n".into());
+    out.push("~ \"example\"\n  ≁ Foo\n  ~ Bar\nFoo Bar\n".into());
+    out.push("A ↚ 5\nB ← A\nB\n".into());
+    out
+}
+
 fn sources(n: usize, seed: u64, quick: bool) -> Vec<Source> {
     let mut r = Rng::new(seed ^ 0x10);
     let files = corpus_files();
@@ -1501,6 +1686,13 @@ fn sources(n: usize, seed: u64, quick: bool) -> Vec<Source> {
     let mut out = Vec::new();
     for s in SEEDS {
         out.push(Source { cat: "seed", text: s.to_string(), features: vec![] });
+    }
+    let fam = module_family();
+    for (i, m) in fam.iter().enumerate() {
+        // quick: every 3rd member, rotating with the seed (all of them in the thorough tier)
+        if !quick || (i as u64 + seed) % 3 == 0 {
+            out.push(Source { cat: "module-visibility", text: m.clone(), features: vec![] });
+        }
     }
     for (_, t) in &files {
         if t.len() < 60000 {
